@@ -53,6 +53,8 @@ func (g *gen) makeScript() rscript {
 		s.mutation = 25
 	case 9:
 		s.mutation, s.version = 26, 3
+	case 13:
+		s.mutation = 27
 	}
 	base := 2
 	if s.version == 3 {
@@ -78,7 +80,7 @@ func (g *gen) makeScript() rscript {
 		case k < 18:
 			s.steps = append(s.steps, rstep{kind: "dBA"})
 		case k < 19:
-			s.steps = append(s.steps, rstep{kind: "tick", n: []int{31, 61, 120}[g.r.Intn(3)]})
+			s.steps = append(s.steps, rstep{kind: "tick", n: []int{45, 75, 120}[g.r.Intn(3)]})
 		default:
 			if g.r.Intn(2) == 0 {
 				s.steps = append(s.steps, rstep{kind: "smpA"})
@@ -107,6 +109,11 @@ func (g *gen) makeScript() rscript {
 		} else {
 			s.injectAt, s.target = len(s.steps)-2, "A"
 		}
+	}
+	if s.mutation == 27 {
+		// the side that answers the query with its D-H Commit message and then waits for the D-H Key
+		// message (the moment itself is found by looking at the state, see runScript)
+		s.target, s.injectAt = "B", 2
 	}
 	return s
 }
@@ -301,6 +308,53 @@ func (g *gen) craftInjection(sc rscript, pending, seen, sentByTarget [][]byte, t
 			piece = base[(idx-1)*k : idx*k]
 		}
 		return []byte(fmt.Sprintf("?OTR|%08x|%08x,%05d,%05d,%s,", st, rt, idx, total, piece)), what
+	case 27: // a correctly framed D-H Commit message (both DATA fields parse, valid header) whose commitment
+		// has 31 or 33 bytes instead of 32 and compares higher than any genuine one (starts 0xFF), while the
+		// target has sent its own D-H Commit message and waits for the D-H Key message. (A library that
+		// takes such a commit for a new exchange answers it with a D-H Key message: not a rejection, not judged.)
+		if !ts.HasAke || ts.AkeState != 1 {
+			return nil, ""
+		}
+		var own []byte
+		for _, m := range sentByTarget {
+			if bytes.HasPrefix(m, []byte("?OTR:AAMC")) || bytes.HasPrefix(m, []byte("?OTR:AAIC")) {
+				own = decodeWire(m)
+			}
+		}
+		if len(own) < 3 {
+			return nil, ""
+		}
+		hdr := []byte{0, own[1], 2}
+		encGx := g.bytesN(196)
+		if own[1] == 3 {
+			if len(own) < 11 {
+				return nil, ""
+			}
+			st := otr3.VerifSnapshot(src.c).OurTag
+			if st == 0 {
+				st = ts.TheirTag
+			}
+			if st == 0 {
+				// the peer has not drawn its instance tag yet: the commit of some other instance of the peer
+				st = 0x777 + uint32(g.r.Intn(1000))
+			}
+			rt := ts.OurTag
+			if g.r.Intn(3) == 0 {
+				rt = 0
+			}
+			hdr = append(hdr, byte(st>>24), byte(st>>16), byte(st>>8), byte(st), byte(rt>>24), byte(rt>>16), byte(rt>>8), byte(rt))
+			own = own[11:]
+		} else {
+			own = own[3:]
+		}
+		if _, d, ok := otr3.ExtractData(own); ok && len(d) > 0 && g.r.Intn(2) == 0 {
+			encGx = append([]byte{}, d...) // the genuine encrypted g^x of the session's own commit
+		}
+		hl := 31 + 2*g.r.Intn(2)
+		h := g.bytesN(hl)
+		h[0] = 0xff
+		lastInjectionDetail = fmt.Sprintf("D-H Commit message, OTRv%d header %x, DATA(encrypted g^x, %d bytes), DATA(commitment, %d bytes: %x)", hdr[1], hdr, len(encGx), hl, h)
+		return encodeWire(append(hdr, otr3.AppendData(otr3.AppendData(nil, encGx), h)...)), fmt.Sprintf("commit-with-%d-byte-hash-while-awaiting-dhkey", hl)
 	case 24: // a genuine, not yet delivered OTRv3 data message with the receiver instance tag set to zero
 		// ("any instance"): the tag filter lets it through, the authenticator covers the header
 		if sc.version != 3 {
@@ -409,6 +463,9 @@ func (g *gen) truncateEncoded(m []byte) []byte {
 // which protocol-visible fields of the target changed while it processed the injected message
 var lastInjectionEffect string
 
+// the fields of a message built from scratch, for the report
+var lastInjectionDetail string
+
 func snapDiff(a, b otr3.VerifState) string {
 	var d []string
 	add := func(c bool, n string) {
@@ -498,6 +555,14 @@ func (g *gen) runScript(w *world, sc rscript, inject bool) (obs []string, injInf
 			}
 			due = !injectedOnce && otr3.VerifSnapshot(t.c).HasAke && otr3.VerifSnapshot(t.c).AkeState == 3
 		}
+		if sc.mutation == 27 {
+			// as soon as the target waits for the D-H Key message (it has sent its D-H Commit)
+			t := a
+			if sc.target == "B" {
+				t = b
+			}
+			due = !injectedOnce && otr3.VerifSnapshot(t.c).HasAke && otr3.VerifSnapshot(t.c).AkeState == 1
+		}
 		if inject && due {
 			injectedOnce = true
 			tgt, src, pending, seen := a, b, l.qba, seenA
@@ -510,12 +575,16 @@ func (g *gen) runScript(w *world, sc rscript, inject bool) (obs []string, injInf
 				if sc.target == "B" {
 					sentByTarget = append(append([][]byte{}, seenA...), l.qba...)
 				}
+				lastInjectionDetail = ""
 				m, what := g.craftInjection(sc, pending, seen, sentByTarget, tgt, src)
 				if m != nil {
 					before := otr3.VerifSnapshot(tgt.c)
 					plain, ts, err, pan := w.recv(tgt, m)
 					lastInjectionEffect = snapDiff(before, otr3.VerifSnapshot(tgt.c))
 					injInfo = fmt.Sprintf("%s into %s: %.60s… -> plain=%s send=%d err=%s events=%s", what, sc.target, m, plainStr(plain), len(ts), otr3.VerifErrClass(err), lastEvents)
+					if lastInjectionDetail != "" {
+						injInfo += " [" + lastInjectionDetail + "]"
+					}
 					rejected = !pan && plain == nil
 					for _, t := range ts {
 						if !isErrorReply(t) {
@@ -680,7 +749,7 @@ func (g *gen) restartAfterRejectedRevealSig(w *world) {
 			}
 		}
 		// the genuine Reveal Signature message is lost; a's next tagged text makes b start anew
-		w.tick(61)
+		w.tick(75)
 		t2, _ := w.send(a, g.cleanText())
 		l := &link{w: w, a: a, b: b}
 		l.enqueue(a, t2)
@@ -722,7 +791,7 @@ func (g *gen) pendingResendAfterRejectedSig(w *world) {
 		text := []byte("the message that got lost")
 		w.send(a, text)                                // lost on the way
 		w.recv(a, []byte("?OTR Error: unreadable")) // the peer saw something it could not read
-		w.tick(61)
+		w.tick(75)
 		fwd := func(to *party, ms []otr3.ValidMessage) (out []otr3.ValidMessage) {
 			for _, m := range ms {
 				_, ts, _, _ := w.recv(to, m)
